@@ -151,6 +151,23 @@ def run(fx, tier):
                 ok = len(clears) == 1 and peval(p.origin(clears[0], clears[0].x.get('r'))) == 0
                 why = 'no live waiter: the flag is cleared'
             v.check(ok, 'R-CGRAPH', inst, why, key='C11:R-CGRAPH:async_mutex::unlock', where=f.file)
+        # the mutex becomes free only when nobody is queued: every clearing of the flag is dominated by `_waiting.empty()`
+        # (a cancelled entry at the head must not end the search while live waiters are still behind it)
+        from flow import edge_guards
+        for b_, i_, l_, x in f.elements():
+            x = f.resolve({'k': 'elem', 'b': b_, 'i': i_})
+            if _writes_field(x, '_locked') != '=':
+                continue
+            empty_known = False
+            for cond, pol, gb in edge_guards(f, b_):
+                cm = comparison(origin(f, cond), pol)
+                if cm and cm[0] == '!=' and contains(cm[1], lambda n: n.get('k') == 'call' and callee_name(n) == 'empty'
+                                                     and 'obj' in n and is_member_of_this(n['obj'], '_waiting')) \
+                        and not contains(cm[1], lambda n: n.get('k') == 'un' and n.get('op') == '!'):
+                    empty_known = True
+            v.check(empty_known, 'R-CGRAPH', 'async_mutex::unlock:free-only-when-queue-empty@%s [%s]' % (l_, f.tu),
+                    'the lock is marked free only on the edge where the waiting queue is empty (no live waiter is stranded behind a cancelled one)',
+                    key='C11:R-CGRAPH:async_mutex::unlock:free-only-when-empty', where='%s:%s' % (f.path_file(), l_))
         fronts = [c for _, _, _, c in f.calls() if callee_name(c) == 'front']
         v.check(bool(fronts), 'R-CGRAPH', 'async_mutex::unlock:fifo [%s]' % f.tu, 'waiters are taken from the front',
                 key='C11:R-CGRAPH:async_mutex::unlock:front', where=f.file)
